@@ -65,7 +65,7 @@ def run_case(ctx, g):
         scale = str(rng.choice(["tcb", "utc", "tdb"]))
         tref_obj = Time(tr, format="mjd", scale=scale)
         ctx.count("explicit_tref_scale=" + scale)
-        pr.data = tj.RVData(t=sv["t"], rv=sv["rv"] * scen.U(sv["unit"]), rv_err=sv["err"] * scen.U(sv["unit"]),
+        pr.data = tj.RVData(t=sv["t"], rv=sv["rv"] * scen.U(sv["unit"]), rv_err=sv["err"] * scen.U(sv.get("err_unit", sv["unit"])),
                             t_ref=tref_obj)
         tr = float(tref_obj.tcb.mjd)
         c["t_ref"] = tr
